@@ -494,6 +494,21 @@ def check_consumer_pairing(ck: Checker, rid: str, m: Fifo, producer_tuple_len=2)
             wide = [k for k in caught if not lat.covers(['Exception'], k)]
             if goes_on:
                 ck.ob(rid, m.outer, h.ast, not wide, f'the handler that turns a failed call into the element\'s output catches {caught}: an outcome of the call, never an event of the consumer' if not wide else f'the handler that turns a failure into the element\'s output catches {wide}: a KeyboardInterrupt / SystemExit / GeneratorExit / CancelledError that reaches the consumer while it waits for element i is yielded as the result of element i (whose real result is dropped) and the interrupt is lost')
+    # (g) ... and every outcome of the call does become the element's output under return_exceptions: no handler in front of
+    #     that one takes a class of Exception away and re-raises it unconditionally (CancelledError of concurrent.futures is
+    #     an Exception: a call that ended in it is a failed call like any other)
+    for tr_ in [t for t in ast.walk(m.outer.node) if isinstance(t, ast.Try)]:
+        if not any((isinstance(c_, ast.Call) and method_of(c_)[1] == 'result') or isinstance(c_, ast.Await) for b_ in tr_.body for c_ in ast.walk(b_)):
+            continue
+        goer_i = next((i_ for i_, h_ in enumerate(tr_.handlers) if h_.body and not isinstance(h_.body[0], ast.Raise)), None)
+        if goer_i is None:
+            continue
+        for h_ in tr_.handlers[:goer_i]:
+            ht = h_.type
+            names_ = [] if ht is None else [norm_text(t) for t in (ht.elts if isinstance(ht, ast.Tuple) else [ht])]
+            inner = [k for k in names_ if k.split('.')[-1] not in ('BaseException', 'KeyboardInterrupt', 'SystemExit', 'GeneratorExit') and not (k.split('.')[-1] == 'CancelledError' and 'asyncio' in k)]
+            if inner:
+                ck.ob(rid, m.outer, h_, False, f'L{h_.lineno}: the handler for {inner} in front of the return_exceptions handler re-raises unconditionally: a call that failed with that class is not delivered as its element\'s output, the stream aborts there and every later input gets no output')
     # (d) the loop ends normally only on the end marker
     check_loop_ends_on_marker(ck, rid, m.outer, cfg, loop, zname)
     # (c) one yield per dequeue
